@@ -10,7 +10,7 @@ import z3
 from engine.pyse import arrays as A, core
 from engine.pyse.api import SYM, View, contract, da_from_spec
 from engine.pyse.core import CTX, Sym, as_sym
-from contracts.specarray_stats import (SA, SC_2D, SC_ALL, DIMS_1D, DIMS_2D, ONED, MOMD, DF, HS, ite, s_oned, s_momd,
+from contracts.specarray_stats import (own_position_only, SA, SC_2D, SC_ALL, DIMS_1D, DIMS_2D, ONED, MOMD, DF, HS, ite, s_oned, s_momd,
                                        s_fdspr, s_hs, _nonspec, _pos)
 
 NP = "wavespectra.core.npstats:"
@@ -399,6 +399,7 @@ def _acc(name, spec, uses, kwargs_list=({},), scen=SC_2D, props=("C02", "C06", "
         pos = c.position(V)
         c.ensure_dims("dims", r, V.pos_dims)
         c.ensure_eq("at_the_true_peak", c.value(r, pos), spec(c.m, V, pos, **kw))
+        own_position_only(c, da, r, pos, recompute=lambda d2: c.call(d2.spec, **kw))
 
     verify.__name__ = "v_acc_" + name
     contract(SA + name, props=list(props), scenarios=scenarios, uses=uses)(verify)
